@@ -69,6 +69,19 @@ CHECKS = {
         note=TRUST + 'Architecture restrictions (NotImplementedError) are modelled and excluded as in the property.',
         technique='Rocq proof (induction over member lists) + exhaustive small-scope co-execution against the Python code',
     ),
+    'C18': dict(
+        ref='5.18',
+        text='Theorems in coq/Properties/C18.v about the loop of parse_contents over decoded lines: any table of well-formed '
+             'rows (paths with embedded spaces, 1..n packages with any qualifiers, any padding) parses to the fold of its '
+             '(path, bare name) pairs; looked up, each path gives exactly the bare names of its rows in order and each package '
+             'exactly the paths of the rows naming it in file order; the two mappings are inverse with multiplicity; narrative '
+             'before the FILE/LOCATION row is ignored when declared; a missing declared header and a present undeclared header '
+             'raise. All by induction over the row list. The model is co-executed with contents.parse_contents on generated '
+             'tables written to temporary plain and gzip files and on malformed line lists, and the statement (expected '
+             'mappings, inverse, header rules, gzip = plain) is evaluated on the implementation.',
+        note=TRUST + 'Not modelled (exercised by execution only): opening the file, gzip, UTF-8 decoding.',
+        technique='Rocq proof (induction over rows) + differential co-execution against the Python code on generated files',
+    ),
     'C19': dict(
         ref='5.19',
         text='Theorems in coq/Properties/C19.v: for any lower-casing function, any value type and any finite operation '
